@@ -118,7 +118,7 @@ func (s *serverSocket) upgradeTo(t ServerTransport, c *transport.Callbacks) {
 
 	// Get the queued packets from the old transport and send them with the new one.
 	qp := old.QueuedPackets()
-	vhook.Event("eio.s.swap", "o", s, "to", t.Name(), "pk", qp)
+	vhook.Event("eio.s.swap", "o", s, "to", t, "pk", qp)
 	for _, p := range qp {
 		if p.Type != parser.PacketTypeNoop {
 			t.Send(p)
@@ -196,7 +196,7 @@ func (s *serverSocket) onError(err error) {
 func (s *serverSocket) Send(packets ...*parser.Packet) {
 	s.transportMu.RLock()
 	defer s.transportMu.RUnlock()
-	vhook.Event("eio.s.send", "o", s, "tr", s.transport.Name(), "pk", packets)
+	vhook.Event("eio.s.send", "o", s, "tr", s.transport, "pk", packets)
 	s.transport.Send(packets...)
 }
 
